@@ -2446,3 +2446,56 @@ def register_misc22(E):
 _old_register_all31=register_all
 def register_all(E):
     _old_register_all31(E); register_misc22(E)
+
+# ---- thread_local! / RefCell / Cell / Mutex / RwLock (single-threaded semantics: a run is one thread of one process)
+def _tls_init_body(e,keyname):
+    """the initialiser of the k-th thread-local key is the k-th `__rust_std_internal_init_fn` of the dump (same order)"""
+    keys=[b.name for b in e.bodies if b.kind=='const' and re.search(r':\s*(std::thread::)?LocalKey<',getattr(b,'header','') or '')]
+    inits=[b for b in e.bodies if b.kind=='fn' and b.name.split('::')[-1]=='__rust_std_internal_init_fn']
+    if keyname not in keys or len(inits)!=len(keys): raise Unsupported('thread_local initialiser of '+keyname)
+    return inits[keys.index(keyname)]
+def m_localkey_with(e,run,a,f):
+    key=deref(a[0])
+    if not (isinstance(key,Opaque) and key.kind=='LocalKey'): raise Unsupported('LocalKey::with on '+repr(key)[:60])
+    st=run.ghost.setdefault('statics',{}); nm='tls:'+key.p['name']
+    if nm not in st: st[nm]=Ref(Cell(e.call_fn(run,_tls_init_body(e,key.p['name']),[])))
+    return e.call_value(run,a[1],[st[nm]])
+def m_localkey_try_with(e,run,a,f): return ok(m_localkey_with(e,run,a,f))
+def m_wrap_new(name):
+    def m(e,run,a,f): return Agg(name,[a[0]])
+    return m
+def m_inner_ref(e,run,a,f): return Ref(deref(a[0]),0)
+def m_lock(e,run,a,f): return ok(Ref(deref(a[0]),0))
+def m_cell_get(e,run,a,f): return copy_val(deref(a[0]).f[0])
+def m_cell_set(e,run,a,f): deref(a[0]).f[0]=a[1]; return UNIT
+def m_cell_replace(e,run,a,f):
+    c=deref(a[0]); old=c.f[0]; c.f[0]=a[1]; return old
+def m_cell_take(e,run,a,f): raise Unsupported('Cell::take')
+def m_into_inner(e,run,a,f):
+    d=deref(a[0]); return ok(d.f[0]) if d.ty in ('Mutex','RwLock') else d.f[0]
+def register_misc23(E):
+    M=E.model
+    M(r'^(std::thread::)?LocalKey::with$',m_localkey_with); M(r'^(std::thread::)?LocalKey::try_with$',m_localkey_try_with)
+    M(r'^(std::cell::)?RefCell::new$',m_wrap_new('RefCell')); M(r'^(std::cell::)?RefCell::(borrow|borrow_mut|get_mut|as_ptr)$',m_inner_ref)
+    M(r'^(std::cell::)?Cell::new$',m_wrap_new('Cell')); M(r'^(std::cell::)?Cell::get$',m_cell_get); M(r'^(std::cell::)?Cell::set$',m_cell_set); M(r'^(std::cell::)?Cell::replace$',m_cell_replace)
+    M(r'^(std::sync::)?Mutex::new$',m_wrap_new('Mutex')); M(r'^(std::sync::)?Mutex::(lock|try_lock)$',m_lock); M(r'^(std::sync::)?Mutex::get_mut$',m_lock)
+    M(r'^(std::sync::)?RwLock::new$',m_wrap_new('RwLock')); M(r'^(std::sync::)?RwLock::(read|write|try_read|try_write)$',m_lock)
+    M(r'^(std::sync::)?(Mutex|RwLock)::into_inner$|^(std::cell::)?(RefCell|Cell)::into_inner$',m_into_inner)
+    M(r'^<(std::cell::)?(Ref|RefMut)<.*> as (std::ops::)?Deref(Mut)?>::deref(_mut)?$',m_guard_deref)
+    M(r'^<(std::sync::)?(MutexGuard|RwLockReadGuard|RwLockWriteGuard)<.*> as (std::ops::)?Deref(Mut)?>::deref(_mut)?$',m_guard_deref)
+    M(r'^(std::sync::)?(LazyLock|Lazy)::new$',lambda e,run,a,f: Agg('LazyLock',[none(),a[0]]))
+    M(r'^<(std::sync::)?(LazyLock|Lazy)<.*> as (std::ops::)?Deref>::deref$|^(std::sync::)?LazyLock::force$',m_lazy_force)
+def m_guard_deref(e,run,a,f):
+    # a guard is modelled as the reference to the protected value itself: `&guard` / `&mut guard` -> that reference
+    x=a[0]
+    if isinstance(x,Ref):
+        v=x.get()
+        if isinstance(v,Ref): return v
+    return x
+def m_lazy_force(e,run,a,f):
+    d=deref(a[0])
+    if d.f[0].vname=='None': d.f[0]=some(e.call_value(run,d.f[1],[]))
+    return Ref(Cell(d.f[0].f[0]))
+_old_register_all32=register_all
+def register_all(E):
+    _old_register_all32(E); register_misc23(E)
